@@ -90,12 +90,29 @@ deriving DecidableEq, Repr, Inhabited
 
 /-! ### value level -/
 
+/-- one token of a *deep digest*: the pre-order serialisation of everything reachable from a value
+(`harness/c02.py: toks_of` emits the same stream from a live Python object).  `imm` an immutable, `arr` an
+ndarray / sparse matrix by content, `dictO … close` a dict / list with `key`-ed items in order, `objO c …
+close` an instance of class `c` with its `__dict__` in order, `frozenO … close` an object without `.copy` -/
+inductive Tok where
+  | imm (t : Int)
+  | arr (d : Arr)
+  | dictO
+  | frozenO
+  | objO (c : Cls)
+  | key (s : String)
+  | close
+deriving DecidableEq, Repr, Inhabited
+
 /-- structure that must ride along untouched: per attribute an immutable value, an array (trilist,
-colours, adjacency triplets, texture pixels, texture coordinates …) or a dict of arrays (label masks) -/
+colours, adjacency triplets …), a dict of arrays (label masks), or — `deep` — any object graph given by its
+deep digest (the `tcoords` PointCloud and the `texture` Image of a textured mesh, with their own landmark
+managers and groups) -/
 inductive XV where
   | imm (t : Int)
   | arr (d : Arr)
   | dict (items : List (String × Arr))
+  | deep (toks : List Tok)
 deriving DecidableEq, Repr, Inhabited
 
 abbrev Extra := List (String × XV)
@@ -396,6 +413,7 @@ def RepX (h : Heap) (fs : Slots) (ex : Extra) : Prop :=
     | .imm t => fs.lookup x = some (.imm t)
     | .arr dd => ∃ b, fs.lookup x = some (.ref b) ∧ h[b]? = some (.arr dd)
     | .dict _ => True
+    | .deep _ => True
 
 /-- a labelled graph owns a dict of mask arrays (what its `copy` override walks) -/
 def LabelOK (h : Heap) (c : SCls) (fs : Slots) : Prop :=
@@ -448,6 +466,105 @@ structure Frame (lo hi : Nat) (h h' : Heap) : Prop where
 
 /-! ### building and reading heaps (driver, examples) -/
 
+/-! ### deep digests: everything reachable from a value, by content -/
+
+def digestSlots (rec : Val → Option (List Tok)) : Slots → Option (List Tok)
+  | [] => some []
+  | (x, v) :: t =>
+    match rec v, digestSlots rec t with
+    | some a, some b => some (Tok.key x :: (a ++ b))
+    | _, _ => none
+
+def wrapTok (o : Tok) (r : Option (List Tok)) : Option (List Tok) := r.map fun ts => o :: (ts ++ [Tok.close])
+
+/-- the deep digest of `v` on heap `h` (fuel bounds the nesting depth; `none`: out of fuel or dangling) -/
+def digest : Nat → Heap → Val → Option (List Tok)
+  | 0, _, _ => none
+  | _ + 1, _, .imm t => some [.imm t]
+  | n + 1, h, .ref a =>
+    match h[a]? with
+    | none => none
+    | some (.arr x) => some [.arr x]
+    | some (.dict fs) => wrapTok .dictO (digestSlots (digest n h) fs)
+    | some (.frozen fs) => wrapTok .frozenO (digestSlots (digest n h) fs)
+    | some (.obj c fs) => wrapTok (.objO c) (digestSlots (digest n h) fs)
+
+def readsSlots (rec : Val → List Nat) : Slots → List Nat
+  | [] => []
+  | (_, v) :: t => rec v ++ readsSlots rec t
+
+/-- the addresses `digest` looks at -/
+def reads : Nat → Heap → Val → List Nat
+  | 0, _, _ => []
+  | _ + 1, _, .imm _ => []
+  | n + 1, h, .ref a =>
+    match h[a]? with
+    | none => [a]
+    | some (.arr _) => [a]
+    | some (.dict fs) => a :: readsSlots (reads n h) fs
+    | some (.frozen fs) => a :: readsSlots (reads n h) fs
+    | some (.obj _ fs) => a :: readsSlots (reads n h) fs
+
+/-- the attributes of a shape object other than `points` and `_landmarks`, in `__dict__` order -/
+def filterX (fs : Slots) : Slots := fs.filter fun p => p.1 != "points" && p.1 != "_landmarks"
+
+def xvToks : XV → List Tok
+  | .imm t => [.imm t]
+  | .arr d => [.arr d]
+  | .dict items => Tok.dictO :: (items.flatMap fun it => [Tok.key it.1, Tok.arr it.2]) ++ [Tok.close]
+  | .deep t => t
+
+/-- the deep digest a shape object's other attributes must have -/
+def exToks (ex : Extra) : List Tok := ex.flatMap fun e => Tok.key e.1 :: xvToks e.2
+
+/-- allocation of the object graph a token stream describes (inverse of `digest`): a stack machine over the
+stream.  A frame is an opened container with the items read so far and the pending key. -/
+structure Frm where
+  opener : Tok
+  fs : Slots
+  pending : Option String
+deriving Repr, Inhabited
+
+structure AllocSt where
+  heap : Heap
+  stack : List Frm
+  result : Option Val
+  bad : Bool
+deriving Repr, Inhabited
+
+def AllocSt.push (st : AllocSt) (v : Val) : AllocSt :=
+  match st.stack with
+  | [] => { st with result := some v }
+  | fr :: rest =>
+    match fr.pending with
+    | some k => { st with stack := { fr with fs := fr.fs ++ [(k, v)], pending := none } :: rest }
+    | none => { st with bad := true }
+
+def allocStep (st : AllocSt) (t : Tok) : AllocSt :=
+  match t with
+  | .imm n => st.push (.imm n)
+  | .arr d => { st with heap := st.heap ++ [Cell.arr d] }.push (.ref st.heap.length)
+  | .dictO | .frozenO | .objO _ => { st with stack := ⟨t, [], none⟩ :: st.stack }
+  | .key s =>
+    match st.stack with
+    | fr :: rest => { st with stack := { fr with pending := some s } :: rest }
+    | [] => { st with bad := true }
+  | .close =>
+    match st.stack with
+    | fr :: rest =>
+      let cell : Cell := match fr.opener with
+        | .objO c => .obj c fr.fs
+        | .frozenO => .frozen fr.fs
+        | _ => .dict fr.fs
+      { st with heap := st.heap ++ [cell], stack := rest }.push (.ref st.heap.length)
+    | [] => { st with bad := true }
+
+def allocToks (h : Heap) (toks : List Tok) : Heap × Val :=
+  let st := toks.foldl allocStep ⟨h, [], none, false⟩
+  match st.result, st.bad, st.stack with
+  | some v, false, [] => (st.heap, v)
+  | _, _, _ => (h, .imm 0)
+
 def xvAlloc (h : Heap) : XV → Heap × Val
   | .imm t => (h, .imm t)
   | .arr dd => (h ++ [.arr dd], .ref h.length)
@@ -455,6 +572,7 @@ def xvAlloc (h : Heap) : XV → Heap × Val
     let r := items.foldl (fun (acc : Heap × Slots) it =>
       (acc.1 ++ [Cell.arr it.2], acc.2 ++ [(it.1, .ref acc.1.length)])) (h, [])
     (r.1 ++ [.dict r.2], .ref r.1.length)
+  | .deep toks => allocToks h toks
 
 def extraAlloc (h : Heap) (ex : Extra) : Heap × Slots :=
   ex.foldl (fun (acc : Heap × Slots) e =>
@@ -484,18 +602,24 @@ def buildGroups (h : Heap) : Groups → Heap × Slots
     (h2, (n, v) :: t)
 end
 
+/-- fuel of the digests taken by the executable checks and the driver (nesting depth of an attribute) -/
+def DFUEL : Nat := 12
+
 def readXV (h : Heap) : Val → Option XV
   | .imm t => some (.imm t)
   | .ref b =>
     match h[b]? with
     | some (.arr dd) => some (.arr dd)
     | some (.dict ms) =>
-      (ms.mapM fun (p : String × Val) => match p.2 with
+      match (ms.mapM fun (p : String × Val) => match p.2 with
         | Val.ref q => match h[q]? with
           | some (Cell.arr dd) => some (p.1, dd)
           | _ => none
-        | _ => none).map XV.dict
-    | _ => none
+        | _ => none) with
+      | some items => some (.dict items)
+      | none => (digest DFUEL h (.ref b)).map XV.deep
+    | some _ => (digest DFUEL h (.ref b)).map XV.deep
+    | none => none
 
 /-- read the shape at `v` back (fuel bounds the nesting depth); `none` when it is not a shape -/
 def readShape : Nat → Heap → Val → Option Shape
